@@ -121,6 +121,18 @@ channel.send((c, out))
 del c
 """
 
+MAIN_THREAD = r"""
+import threading, signal
+main = threading.current_thread() is threading.main_thread()
+try:
+    old = signal.signal(signal.SIGUSR2, signal.SIG_IGN)
+    signal.signal(signal.SIGUSR2, old)
+    sig = "ok"
+except ValueError as e:
+    sig = str(e)
+channel.send((main, sig))
+"""
+
 FINAL = r"""
 import sys
 mods = sorted(m for m in sys.modules if m.split(".")[0] == "execnet")
@@ -256,6 +268,14 @@ def run_dynamic(spec):
                 res.count("callback_services_on_bare_workers")
                 if svgot != [("echo", "tuple"), ("echo", "dict"), ("echo", "NoneType")] or inner_said != "hello over the carried channel":
                     res.violation(f"bare-worker-callback-service-differs:{spec['path']}", f"{label}: {short(svgot, 300)} / {short(inner_said, 200)}")
+                # like any worker, an idle one runs remote code in its main thread (signal handlers, GUI toolkits ... need that)
+                try:
+                    mt = gw.remote_exec(MAIN_THREAD).receive(20)
+                except BaseException as e:  # noqa
+                    mt = f"{type(e).__name__}: {str(e)[-200:]}"
+                res.count("main_thread_probes_on_bare_workers")
+                if mt != (True, "ok"):
+                    res.violation(f"bare-worker-runs-code-outside-main-thread:{spec['path']}", f"{label}: (in main thread, signal.signal) = {short(mt, 200)}")
                 # rsync's remote part and remote_status work there too
                 st = gw.remote_status()
                 if spec["path"] != "socket" and st.execmodel != model:
